@@ -44,6 +44,7 @@ class SimLoop(asyncio.BaseEventLoop):
         self.exc_contexts = []  # contexts passed to call_exception_handler
         self.gc_contexts = 0  # garbage-collection-timed reports (never used by an oracle)
         self.timers_fired = 0
+        self.created_tasks = []  # every task created on this loop (to look for exceptions nobody retrieved)
         self.foreign_depth = 0  # > 0 while code runs that, in production, runs in the communicator's thread
         self.thread_violations = []  # non-thread-safe scheduling calls made from such code
         self.set_exception_handler(SimLoop._record_exception)
@@ -103,6 +104,21 @@ class SimLoop(asyncio.BaseEventLoop):
             return super().call_soon_threadsafe(callback, *args, context=context)
         finally:
             self.foreign_depth = depth
+
+    def create_task(self, coro, **kwargs):
+        task = super().create_task(coro, **kwargs)
+        self.created_tasks.append(task)
+        return task
+
+    def unretrieved_task_exceptions(self):
+        """Exceptions of finished tasks that nobody has looked at: what asyncio reports as 'Task exception was never
+        retrieved' when the task is garbage collected - read here deterministically instead of at collection time."""
+        out = []
+        for task in self.created_tasks:
+            if task.done() and not task.cancelled() and getattr(task, '_exception', None) is not None \
+                    and getattr(task, '_log_traceback', False):
+                out.append((task, task._exception))
+        return out
 
     # -- stepping --------------------------------------------------------------------------
     def runnable(self):
